@@ -166,6 +166,12 @@ class World:
                 c.thread.join()
         self.cur = None
 
+    def wake_rx_waiters(self):
+        """resume every context blocked in wait_rx() now (used to stop idle loops)"""
+        for r in self.radios:
+            for tok in list(r.rx_waiters):
+                tok.fire(0)
+
     def _dispatch(self, me):
         """thread `me` holds the baton; returns when me's resume event is popped"""
         ev = self.ev
@@ -261,17 +267,18 @@ class Ctx:
         w._dispatch(self)
 
     def wait_rx(self, radio, timeout, latency):
-        """block until `radio` holds RX data (then + latency) or `timeout` elapsed.
-        Returns True if data is waiting."""
+        """block until `radio` holds RX data (then + latency), `timeout` elapsed (None = wait
+        for ever; see World.wake_rx_waiters) . Returns True if data is waiting."""
         w = self.w
         if radio.rx_fifo:
             self.wait(latency)
             return True
-        if w.now + timeout > w.horizon:
-            timeout = w.horizon - w.now + 1
         tok = _RxWaiter(self, latency)
         radio.rx_waiters.append(tok)
-        tok.ev = self.resume_ev = w.at(w.now + timeout, self, "_resume")
+        if timeout is not None:
+            if w.now + timeout > w.horizon:
+                timeout = w.horizon - w.now + 1
+            tok.ev = self.resume_ev = w.at(w.now + timeout, self, "_resume")
         try:
             w._dispatch(self)
         finally:
@@ -287,13 +294,15 @@ class _RxWaiter:
         self.ctx = ctx
         self.latency = latency
         self.ev = None
+        self.fired = False
 
-    def fire(self):
-        if self.ev is not None:
+    def fire(self, latency=None):
+        if not self.fired:
+            self.fired = True
             w = self.ctx.w
             w.cancel(self.ev)
             self.ev = None
-            self.ctx.resume_ev = w.at(w.now + self.latency, self.ctx, "_resume")
+            self.ctx.resume_ev = w.at(w.now + (self.latency if latency is None else latency), self.ctx, "_resume")
 
 
 # --------------------------------------------------------------------------- pins
@@ -636,6 +645,10 @@ class SimRadio:
         st = self.state
         if st in ("tx", "ack_tx"):
             return  # a packet on the air is always finished; its end handler re-evaluates
+        if st == "ack_settle" and self.pwr():
+            # datasheet fig. 13 (PRX operation): once a packet was accepted the ACK is
+            # transmitted; CE / PRIM_RX are only looked at again after the ACK went out
+            return
         if not self.pwr():
             self._cancel_timer()
             self.in_txn = False
@@ -655,11 +668,11 @@ class SimRadio:
                 if st == "stby":
                     self._set_state("rx_settle")
                     self.timer = w.at(w.now + T_SETTLE, self, "_rx_ready")
-            elif st in ("rx", "rx_settle", "ack_settle"):
+            elif st in ("rx", "rx_settle"):
                 self._cancel_timer()
                 self._set_state("stby")
         else:
-            if st in ("rx", "rx_settle", "ack_settle"):
+            if st in ("rx", "rx_settle"):
                 self._cancel_timer()
                 st = "stby"
                 self._set_state(st)
